@@ -705,6 +705,13 @@ func init() {
 			})
 		}
 	}
+	// encoding/json.Marshal works by reflection; its output only feeds log lines in the code under
+	// analysis: an opaque text, no error
+	jsonStub := func(in *Interp, fr *frame, a []Value) Value {
+		return Tuple{Slice{BV(8, '{'), BV(8, '}')}, Iface{}}
+	}
+	reg("encoding/json.Marshal", jsonStub)
+	reg("encoding/json.MarshalIndent", jsonStub)
 	reg("internal/abi.NoEscape", func(in *Interp, fr *frame, a []Value) Value { return a[0] })
 	reg("strings.Join", func(in *Interp, fr *frame, a []Value) Value {
 		elems, _ := a[0].(Slice)
